@@ -97,6 +97,7 @@ INDEX = {
    {"name": "VerifH15Algebra", "common": {"max_depth": 3000}, "quick": {"bounds": {"bits": 3, "trees": 9, "colhis": 1}}, "thorough": {"bounds": {"bits": 4, "trees": 9, "colhis": 2}}},
    {"name": "VerifH15SetNot", "common": {"max_depth": 3000}, "quick": {"bounds": {"steps": 2}}, "thorough": {"bounds": {"steps": 3}}},
    {"name": "VerifH15Shards", "common": {"max_depth": 3000}, "quick": {"bounds": {"bits": 3, "trees": 4}}, "thorough": {"bounds": {"bits": 4, "trees": 4}}},
+   {"name": "VerifH15ShiftFullArray", "package": "./roaring", "common": {"max_depth": 3000, "max_steps": 50000000}, "quick": {"bounds": {"arraylen": 4096}}},
    {"name": "VerifH15Shift", "package": "./roaring", "common": {"max_depth": 3000}, "quick": {"bounds": {"kinds": 1, "typs": 3, "array": 2, "runs": 1, "words": 1, "near": 1, "wordmask6": 1}}, "thorough": {"bounds": {"kinds": 2, "typs": 3, "array": 3, "runs": 2, "words": 1, "near": 1}}},
  ]},
  "C16": {"package": ".", "harnesses": [
